@@ -148,7 +148,7 @@ def spec_check(case, impl):
         S, vals = d
         exp = {"S": str(S), "N": str(len(vals)), "T": hx("".join(t for t, _ in vals).encode("latin1")),
                "G": ",".join(v for _, v in vals) if vals else "-",
-               "I": ",".join(t + v for t, v in vals) if vals else "-"}
+               "I": ",".join("%02x:%s" % (ord(t), v) for t, v in vals) if vals else "-"}
         bad = [k for k in exp if g.get(k) != exp[k]]
         if bad:
             return "decode: accepted buffer, accessors %s: got %s, reference decoder %s" % (
